@@ -408,7 +408,13 @@ func (ctx drawContext) drawBackground(bg *bo.Background, clipBox bool, bleed bo.
 
 	ctx.dst.OnNewStack(func() {
 		if clipBox {
-			for _, box := range bg.Layers[len(bg.Layers)-1].ClippedBoxes {
+			clippedBoxes := bg.Layers[len(bg.Layers)-1].ClippedBoxes
+			if len(clippedBoxes) == 0 {
+				// empty clipping region (a column or row without cells) : nothing is
+				// visible, and clipping requires a path
+				return
+			}
+			for _, box := range clippedBoxes {
 				roundedBoxPath(ctx.dst, box)
 			}
 			ctx.dst.State().Clip(false)
@@ -1094,6 +1100,7 @@ func clipBorderSegment(context backend.Canvas, style pr.String, width fl, side p
 			}
 		} else {
 			// 2x + 1 dashes
+			context.Rectangle(bbx, bby, 0, 0) // clipping requires a (possibly empty) path
 			context.State().Clip(true)
 			ld := fl(math.Round(float64(length / dash)))
 			denom := ld - utils.FloatModulo(ld+1, 2)
@@ -1117,6 +1124,8 @@ func clipBorderSegment(context backend.Canvas, style pr.String, width fl, side p
 			}
 		}
 	}
+	// a box narrower than a dash generates no segment : clipping still requires a path
+	context.Rectangle(bbx, bby, 0, 0)
 	context.State().Clip(true)
 }
 
